@@ -7,7 +7,7 @@
 set -u
 cd "$(dirname "$0")/.."
 VERIF=$(pwd)
-SCR=${TMPDIR:-/var/tmp}/govc-selftest-$$
+SCR=${TMPDIR:-/var/tmp}/gvself-$$
 mkdir -p "$SCR"
 trap 'rm -rf "$SCR"' EXIT
 props=("$@")
